@@ -325,8 +325,8 @@ def cprog(cmds, tail):
 
 def main():
     out = ['(* GENERATED by tools/gen/gen_gitcfg.py from %s -- do not edit *)' % REPO,
-           'From Coq Require Import List NArith String.', 'From NB Require Import Base.Json Sys.GitCfg.',
-           'Import ListNotations.', 'Open Scope string_scope.', '']
+           'From Coq Require Import String List NArith.', 'From NB Require Import Base.Json Sys.GitCfg.',
+           'Import ListNotations.', 'Local Open Scope string_scope.', '']
     takes = {}
     for tool, mod in MODULES:
         rel = 'nbdime/vcs/git/%s.py' % mod
